@@ -7,8 +7,21 @@ from .. import core, realcode
 
 OPS = {'==': '=', '!=': '<>', '>': '>', '>=': '>=', '<': '<', '<=': '<='}
 NUMS = [5, 2.5, -4, 0, 3, 10]
-TEXTS = ['apple', 'APPLE', 'a*', '*an*', '?pple', 'a~*c', 'ab', 'a?', 'b', 'x y', 'a.c', '[a]', 'banana']
-CELLS = [5, 3, 10, 2.5, -4, 0, 'apple', 'Apple', 'banana', 'a*c', 'abc', 'ab', 'a.c', 'axc', '[a]', '', True, False, None]
+TEXTS = ['apple', 'APPLE', 'a*', '*an*', '?pple', 'a~*c', 'ab', 'a?', 'b', 'x y', 'a.c', '[a]', 'banana',
+         'nan', 'inf', 'Infinity', '1_0', 'e5', '0x1A']        # words float() would take for numbers: they are texts
+CELLS = [5, 3, 10, 2.5, -4, 0, 'apple', 'Apple', 'banana', 'a*c', 'abc', 'ab', 'a.c', 'axc', '[a]', '', True, False, None, 'NaN', 'nan', 'INF', 'infinity', '1_0', 26]
+
+
+class _Blank:
+    pass
+
+
+_Blank.__name__ = 'EmptyCell'
+BLANK = _Blank()
+
+
+def col_enc(vs):
+    return core.enc([[BLANK if v is None else v] for v in vs])
 
 
 def fmt(n):
@@ -105,9 +118,9 @@ def end_to_end(chk, tier):
     n = 12 if tier == 'quick' else 200
     for b in range(n):
         h = rng.randint(3, 8)
-        keys1 = [rng.choice([5, 3, 10, 2.5, -4, 0, 7, 3, 5]) for _ in range(h)]
-        keys2 = [rng.choice(['apple', 'Apple', 'banana', 'abc', 'ab', 'a*c', 'pear']) for _ in range(h)]
-        keys3 = [rng.choice([1, 2, 'x', 'y', 2.5, '']) for _ in range(h)]
+        keys1 = [rng.choice([5, 3, 10, 2.5, -4, 0, 7, 3, 5, None]) for _ in range(h)]
+        keys2 = [rng.choice(['apple', 'Apple', 'banana', 'abc', 'ab', 'a*c', 'pear', 'nan', 'Inf']) for _ in range(h)]
+        keys3 = [rng.choice([1, 2, 'x', 'y', 2.5, '', None]) for _ in range(h)]
         tgt = [rng.choice([1, 2, 4, 8, 16, 0.5, 32, -3]) for _ in range(h)]
         values = {}
         for i in range(h):
@@ -127,7 +140,7 @@ def end_to_end(chk, tier):
         formulas, reqs = [], []
         R = lambda c: '%s1:%s%d' % (c, c, h)
         for col, kind, op, val, rendered, text in crit_forms:
-            rng_enc = core.enc([[v] for v in cols[col]])
+            rng_enc = col_enc(cols[col])
             tgt_enc = core.enc([[v] for v in tgt])
             st = struct(kind, op, val)
             formulas.append('=SUMIFS(%s,%s,%s)' % (R('D'), R(col), text))
@@ -146,24 +159,24 @@ def end_to_end(chk, tier):
             st = struct(kind, op, val)
             for third in ('H%d:H%d' % (off + 1, off + h), 'H%d' % (off + 1)):
                 formulas.append('=SUMIF(%s,%s,%s)' % (R(col), text, third))
-                reqs.append('ci sumif %s 1 %s %s %s' % (core.enc(shifted), core.enc([[v] for v in cols[col]]), core.enc(rendered), st))
+                reqs.append('ci sumif %s 1 %s %s %s' % (core.enc(shifted), col_enc(cols[col]), core.enc(rendered), st))
         # several pairs
         for _ in range(12):
             pairs = rng.sample(crit_forms, rng.randint(2, 3))
             parts, enc_parts = [], []
             for col, kind, op, val, rendered, text in pairs:
                 parts.append('%s,%s' % (R(col), text))
-                enc_parts.append('%s %s %s' % (core.enc([[v] for v in cols[col]]), core.enc(rendered), struct(kind, op, val)))
+                enc_parts.append('%s %s %s' % (col_enc(cols[col]), core.enc(rendered), struct(kind, op, val)))
             formulas.append('=SUMIFS(%s,%s)' % (R('D'), ','.join(parts)))
             reqs.append('ci sumifs %s %d %s' % (core.enc([[v] for v in tgt]), len(pairs), ' '.join(enc_parts)))
             formulas.append('=COUNTIFS(%s)' % ','.join(parts))
             reqs.append('ci countifs %s %d %s' % (core.enc([[v] for v in tgt]), len(pairs), ' '.join(enc_parts)))
         # misaligned ranges
         formulas.append('=SUMIFS(D1:D%d,A1:A%d,">0")' % (h, h - 1))
-        reqs.append('ci sumifs %s 1 %s %s n > I0' % (core.enc([[v] for v in tgt]), core.enc([[v] for v in keys1[:-1]]), core.enc('>0')))
+        reqs.append('ci sumifs %s 1 %s %s n > I0' % (core.enc([[v] for v in tgt]), col_enc(keys1[:-1]), core.enc('>0')))
         formulas.append('=COUNTIFS(A1:A%d,">0",B1:B%d,"apple")' % (h, h - 1))
-        reqs.append('ci countifs %s 2 %s %s n > I0 %s %s t == %s' % (core.enc([[v] for v in tgt]), core.enc([[v] for v in keys1]), core.enc('>0'),
-                                                                   core.enc([[v] for v in keys2[:-1]]), core.enc('apple'), core.enc('apple')))
+        reqs.append('ci countifs %s 2 %s %s n > I0 %s %s t == %s' % (core.enc([[v] for v in tgt]), col_enc(keys1), core.enc('>0'),
+                                                                   col_enc(keys2[:-1]), core.enc('apple'), core.enc('apple')))
         outs = realcode.eval_formulas(formulas, values)
         cases = [(r, o, {'formula': f, 'book': b}) for f, r, o in zip(formulas, reqs, outs)]
         chk.judge('e2e', cases, sample_cap=1)
